@@ -50,7 +50,7 @@ POOLS = {
              "invalid": ["xyz", 3, True, U1[:-1], []]},
     "int": {"valid": [0, -5, 2**40, 7, 2**53 + 1, 2**63 - 1, -(2**63), 10**30], "lenient": ["4", "4.0", 4.0, "-3"], "invalid": ["x", 1.5, True, [], "1.5", {}],
             "nonfinite": ["inf", "nan", float("inf")]},
-    "num": {"valid": [1.5, 3, -0.25, 0], "lenient": ["5.5", "5", "-1e3"], "invalid": ["x", True, [], {}],
+    "num": {"valid": [1.5, 3, -0.25, 0, 2**53 + 1], "lenient": ["5.5", "5", "-1e3"], "invalid": ["x", True, [], {}],
             "nonfinite": ["inf", "nan", float("inf"), "1e999"]},
     "bool": {"valid": [True, False], "lenient": ["true", "False", "TRUE"], "invalid": ["yes", 1, 0, "1", [], 1.0]},
     "enum_str": {"valid": ["aa", "b b"], "lenient": [], "invalid": ["cc", 1, "AA", True, ["aa"], ""]},
@@ -68,11 +68,18 @@ POOLS = {
     "const_int": {"valid": [1], "lenient": [1.0], "invalid": [2, "1", True, 1.5, []]},
     "const_bool": {"valid": [True], "lenient": [], "invalid": [False, 1, "true", 1.0]},
     "const_zero": {"valid": [0], "lenient": [0.0], "invalid": [False, "0", 1]},
+    # unions whose members treat a default differently: null next to string (the text "None" is a string), integer next to an array
+    # (array defaults are outside the statement, the integer member's are not), and a kind that has no valid default at all
+    "null_or_str": {"valid": ["None", "abc", "null"], "lenient": [], "invalid": [[1], {"a": 1}]},
+    "int_or_array": {"valid": [5, 0], "lenient": [], "invalid": ["abc", 1.5]},
+    "array_or_int": {"valid": [5, 0], "lenient": [], "invalid": ["abc", 1.5]},
+    "binary": {"valid": [], "lenient": [], "invalid": ["abc", 5]},
 }
 HEADER_KINDS = {"str", "int", "num", "bool", "enum_str", "enum_int"}
 ENUM_KINDS = ("enum_str", "enum_int", "ref_enum", "enum_str_null", "enum_int_null")
 COOKIE_KINDS = {"str", "enum_str", "int", "num", "bool", "date", "uuid"}
 VIA_REF_KINDS = {"str", "date", "datetime", "uuid", "int", "num", "bool", "enum_str", "enum_int"}
+ONE_MEMBER_KINDS = {"str", "date", "datetime", "uuid", "int", "num", "bool"}
 TWIN_DEFAULT = {"enum_str": ["aa", "b b"], "enum_int": [1, -2]}
 PARAM_KINDS = {"str", "date", "datetime", "uuid", "int", "num", "bool", "enum_str", "enum_int", "union", "ref_enum", "enum_str_null", "enum_int_null"}
 
@@ -96,6 +103,11 @@ def cells():
                             out.append({"kind": kind, "pool": pool, "value": v, "route": route, "literal": literal, "shape": "via_ref"})
                             if route == "model" and pool == "valid":
                                 out.append({"kind": kind, "pool": pool, "value": v, "route": route, "literal": literal, "shape": "via_ref_oneof"})
+                        # the same cell with the default written beside a union that has a single member (composition keyword with one
+                        # inline entry, 3.1 type list with one entry): the default is the union's, the type the member's
+                        if kind in ONE_MEMBER_KINDS and route in ("model", "query"):
+                            for shp in ("one_anyof", "one_oneof", "one_typelist"):
+                                out.append({"kind": kind, "pool": pool, "value": v, "route": route, "literal": literal, "shape": shp})
                         # the same cell next to an earlier declaration of the *same* enum class (same derived name, same values)
                         # that carries another default
                         if kind in ("enum_str", "enum_int"):
@@ -162,6 +174,14 @@ def schema_for(kind, default):
         return {"anyOf": [{"type": "integer"}, {"type": "boolean"}], "default": default}, {}
     if kind == "any":
         return {"default": default}, {}
+    if kind == "null_or_str":
+        return {"oneOf": [{"type": "null"}, {"type": "string"}], "default": default}, {}
+    if kind == "int_or_array":
+        return {"anyOf": [{"type": "integer"}, {"type": "array", "items": {"type": "string"}}], "default": default}, {}
+    if kind == "array_or_int":
+        return {"anyOf": [{"type": "array", "items": {"type": "string"}}, {"type": "integer"}], "default": default}, {}
+    if kind == "binary":
+        return {"type": "string", "format": "binary", "default": default}, {}
     if kind == "ref_enum":
         return {"allOf": [{"$ref": "#/components/schemas/Kind"}], "default": default}, {"Kind": {"type": "string", "enum": ["aa", "bb"]}}
     raise KeyError(kind)
@@ -267,7 +287,7 @@ def expected_json(kind, v):
         except (TypeError, ValueError):
             return int(float(v))
     if kind == "num":
-        return float(v)
+        return v if isinstance(v, int) and not isinstance(v, bool) else float(v)   # an integer-valued number default stays exact
     if kind == "bool":
         return v if isinstance(v, bool) else v.lower() == "true"
     if kind == "str":
@@ -325,6 +345,8 @@ def run(case, ctx):
     if pool == "random":
         pool = classify(kind, v)
     site = {"kind": kind, "pool": pool, "route": route}
+    if kind == "num" and isinstance(v, int) and not isinstance(v, bool) and abs(v) > 2**53:
+        site["integer_beyond_double_precision"] = True
     if kind in ("allof_override", "allof_untyped_first", "allof_untyped_last"):
         first = {"type": "integer", "default": 1} if kind != "allof_untyped_first" else {"default": 1}
         second = {"type": "integer", "default": v} if kind != "allof_untyped_last" else {"default": v}
@@ -347,6 +369,10 @@ def run(case, ctx):
             target = {k_: v_ for k_, v_ in sch.items() if k_ != "default"}
             comps["Target"] = target
             sch = {("oneOf" if shape == "via_ref_oneof" else "allOf"): [{"$ref": "#/components/schemas/Target"}], "default": v}
+        elif shape in ("one_anyof", "one_oneof"):
+            sch = {shape[4:].replace("anyof", "anyOf").replace("oneof", "oneOf"): [{k_: v_ for k_, v_ in sch.items() if k_ != "default"}], "default": v}
+        elif shape == "one_typelist":
+            sch = {**sch, "type": [sch["type"]]}
         elif shape == "twin":
             d1 = next(x for x in TWIN_DEFAULT[kind] if not (type(x) is type(v) and x == v))
             case = dict(case, twin_default=d1)
@@ -364,7 +390,7 @@ def run(case, ctx):
             params = ([twin_param] if twin_param else []) + [{"name": name, "in": route, "schema": sch}]
             paths = {"/items": {"get": {"operationId": "fetchThing", "parameters": params,
                                         "responses": {"200": {"description": "ok"}}}}}
-    doc = {"openapi": "3.0.3", "info": {"title": "t", "version": "1"}, "paths": paths, "components": {"schemas": comps}}
+    doc = {"openapi": "3.1.0" if case.get("shape") == "one_typelist" else "3.0.3", "info": {"title": "t", "version": "1"}, "paths": paths, "components": {"schemas": comps}}
     res = sut.generate(doc, cfg={"literal_enums": literal})
     ctx.sample = case
     ctx.label(f"pool:{pool}", f"route:{route}")
